@@ -14,7 +14,7 @@ PROPERTY = "C11"
 RULE = ("2-4 one-dimensional datasets with key columns of int32/int64/float/str (duplicates, differing string widths), joins 1-1, "
         "n-n (2-3 keys), 1-n, n-1 registered with Data.join_on_key or JoinLink through the collection, chains and cycles; a "
         "selection evaluable on exactly one dataset (or on none: 'and' over two datasets); generated earlier evaluations on other "
-        "datasets (incl. incompatible ones) precede the read; views on the target. Oracle: join model by value. Non-trivial = "
+        "datasets (incl. incompatible ones) precede the read; JoinLinks removed from and added back to the collection between reads; views on the target. Oracle: join model by value. Non-trivial = "
         "selection not evaluable on the target, proper non-empty subset of the source, target has matching and non-matching keys; "
         "distinct by spec hash.")
 ASSUMPTIONS = [
@@ -42,16 +42,18 @@ def build(spec):
             d.add_component(col_values(col, ds["n"]), "k%d" % j)
         datas.append(d)
     dc = DataCollection(datas) if spec.get("use_collection") else None
-    for jn in spec["joins"]:
+    links = {}
+    for k, jn in enumerate(spec["joins"]):
         a, b = datas[jn["a"]], datas[jn["b"]]
         ca = [a.id["k%d" % c] for c in jn["ca"]]
         cb = [b.id["k%d" % c] for c in jn["cb"]]
         if dc is not None and len(ca) == 1 and len(cb) == 1 and jn.get("via_link"):
             from glue.core.link_helpers import JoinLink
-            dc.add_link(JoinLink(cids1=ca, cids2=cb, data1=a, data2=b))
+            links[k] = JoinLink(cids1=ca, cids2=cb, data1=a, data2=b)
+            dc.add_link(links[k])
         else:
             a.join_on_key(b, ca if len(ca) > 1 else ca[0], cb if len(cb) > 1 else cb[0])
-    return datas, dc
+    return datas, dc, links
 
 
 def pyvals(spec, di, ci):
@@ -144,12 +146,35 @@ def build_selection(spec, datas):
 
 def fn_join(spec, rec):
     from glue.core.exceptions import IncompatibleAttribute
-    datas, dc = build(spec)
+    datas, dc, links = build(spec)
     state = build_selection(spec, datas)
-    # earlier evaluations on other datasets (their outcome is checked too)
-    order = list(spec["pre"]) + [spec["target"]]
-    for step, t in enumerate(order):
-        last = step == len(order) - 1
+    # earlier evaluations on other datasets (their outcome is checked too); then, optionally, joins registered as JoinLinks are
+    # removed from / added back to the collection, after which every dataset is read again
+    full_spec = spec
+    removable = sorted(k for k in links if sum(1 for j in spec["joins"] if {j["a"], j["b"]} == {spec["joins"][k]["a"], spec["joins"][k]["b"]}) == 1)
+    edits = [e for e in spec.get("edits") or [] if removable]
+    order = [(t, False) for t in spec["pre"]]
+    if edits:
+        order.append(("edit", False))
+        order += [(t, False) for t in range(len(datasets_of(spec))) if t != spec["target"]]
+    order.append((spec["target"], True))
+    active = set(range(len(spec["joins"])))
+    removed_then_read = False
+    for step, (t, last) in enumerate(order):
+        if t == "edit":
+            for e in edits:
+                k = removable[e[1] % len(removable)]
+                if e[0] == "remove" and k in active:
+                    dc.remove_link(links[k])
+                    active.discard(k)
+                    removed_then_read = True
+                elif e[0] == "readd" and k not in active:
+                    dc.add_link(links[k])
+                    active.add(k)
+            # registration order after the edits: surviving joins in their old order, re-added ones would come last - the model
+            # accepts any qualifying neighbour, so only the set matters
+            spec = dict(full_spec, joins=[j for k, j in enumerate(full_spec["joins"]) if k in active])
+            continue
         expected = model(spec, t, [])
         vs = spec["view"] if last else ["none"]
         view = gen.build_view(vs, (spec["datasets"][t]["n"],))
@@ -178,6 +203,7 @@ def fn_join(spec, rec):
         if not any(got.shape == e.shape and np.array_equal(got.astype(bool), e) for e in exps):
             raise Mismatch("wrong-rows/" + shape_tag(spec, t) + dtype_tag(spec, t),
                            {"target": t, "got": got.astype(int).tolist(), "expected_any_of": [e.astype(int).tolist() for e in exps]})
+    spec = full_spec if not edits else spec
     t = spec["target"]
     src = direct_mask(spec, spec["selection"].get("data", 0)) if spec["selection"]["kind"] == "one" else None
     full = model(spec, t, [])
@@ -187,8 +213,14 @@ def fn_join(spec, rec):
         rec.label("expect-incompatible")
     if spec["pre"]:
         rec.label("earlier-evaluations")
+    if removed_then_read:
+        rec.label("join-link-removed" + ("-and-readded" if any(e[0] == "readd" for e in edits) else ""))
     if len(spec["joins"]) >= len(datas):
         rec.label("cyclic")
+
+
+def datasets_of(spec):
+    return spec["datasets"]
 
 
 def shape_tag(spec, t):
@@ -271,8 +303,9 @@ def join_cases(draw):
         target = draw(st.sampled_from(partners))
     pre = draw(st.lists(st.integers(0, nd - 1), max_size=3))
     view = draw(gen.view_spec([datasets[target]["n"]], ("none", "none", "single", "bool", "fancy")))
+    edits = draw(st.one_of(st.just([]), st.lists(st.tuples(st.sampled_from(["remove", "remove", "readd"]), st.integers(0, 5)).map(list), min_size=1, max_size=4)))
     return {"datasets": datasets, "joins": joins, "selection": sel, "target": target, "pre": pre, "view": view,
-            "use_collection": draw(st.booleans())}
+            "use_collection": draw(st.booleans()), "edits": edits}
 
 
 def checks(tier):
